@@ -1229,8 +1229,10 @@ func (s *ShapeIndex) makeIndexCell(p *PaddedCell, edges []*clippedEdge, t *track
 	for i := 0; i < numShapes; i++ {
 		var clipped *clippedShape
 		// advance to next value base + i
-		eshapeID := int32(s.Len())
-		cshapeID := eshapeID // Sentinels
+		// Sentinels: larger than any shape id. (Len() is not: ids are not
+		// reused, so after a removal the remaining ids can exceed it.)
+		eshapeID := s.nextID
+		cshapeID := eshapeID
 
 		if eNext != len(edges) {
 			eshapeID = edges[eNext].faceEdge.shapeID
